@@ -25,8 +25,16 @@ def decorate(rng, rec, stratum):
             v = v[:i + 1] + "d" + sp + "r/" + v[i + 1:]
             rec = dict(rec)
             rec["marker"] = "d" + sp + "r/"
+            if rng.random() < 0.25 and stratum != "quote" and not v.endswith("/"):
+                # a hostile byte as the very last byte of the value (next to the closing quote of a quoted value)
+                end = rng.choice(["'", "=", "#", ",", ")", "é", ";", "'x'"])
+                v = v + end
+                rec["marker_end"] = end
         elif k == "comm" and rng.random() < 0.5 and stratum in ("special", "quote"):
-            v = v + rng.choice([" prog", "=x", "#1", "é"] if stratum == "special" else ['"q'])
+            if stratum == "special" and rng.random() < 0.3:
+                v = rng.choice(["'%s'", "'%s", "%s'", "(%s)", "=%s", "#%s#"]) % v      # hostile bytes at both ends of the value
+            else:
+                v = v + rng.choice([" prog", "=x", "#1", "é"] if stratum == "special" else ['"q'])
         elif k == "info" and rng.random() < 0.5:
             v = v + rng.choice([" = b", " #c", ", d"])
         elif k in ("capname", "fstype", "signal", "info") and stratum == "hexlooking" and rng.random() < 0.5:
@@ -154,6 +162,8 @@ def run(ctx):
                         bad.append("%s=%r reported as %r" % (k, v, m[k]))
                 if r.get("marker") and r["marker"] not in m.get("name", "") and not cls:
                     bad.append("name: the component %r of %r is not in the reported %r" % (r["marker"], want.get("name"), m.get("name")))
+                if r.get("marker_end") and not m.get("name", "").endswith(r["marker_end"]) and not cls:
+                    bad.append("name: the last byte(s) %r of %r are not the end of the reported %r" % (r["marker_end"], want.get("name"), m.get("name")))
                 for k in m:
                     if k not in want:
                         bad.append("foreign key %s=%r" % (k, m[k]))
